@@ -118,10 +118,19 @@ def grammar_text(g) -> str:
 # ------------------------------------------------------------------ constants: what the engine evaluates them to
 def const_value(text: str):
     """The value `constant()` yields for the literal, for the pool of constants the generators use."""
-    try:
-        return pyast.literal_eval(text.strip())
-    except (ValueError, SyntaxError):
-        return text
+    # engine.constant() evaluates the literal again while the result is a string that still changes (C17 covers that loop)
+    v = text
+    for _ in range(8):
+        if not isinstance(v, str):
+            break
+        try:
+            w = pyast.literal_eval(v.strip())
+        except (ValueError, SyntaxError):
+            break
+        if w == v:
+            break
+        v = w
+    return v
 
 
 # ------------------------------------------------------------------ model S-expression
